@@ -520,7 +520,7 @@ class ManifestContext:
         clk_cgi_params = options.generate_cgi_parameters(
             use=OptionUsage.TIME, exclude=exclude)
 
-        if options.videoErrors:
+        if options.videoErrors and video.representations:
             times = self.calculate_injected_error_segments(
                 options.videoErrors,
                 self.now,
@@ -549,7 +549,7 @@ class ManifestContext:
                     text[0].representations[0])
                 txt_cgi_params['terr'] = times
 
-        if options.videoCorruption:
+        if options.videoCorruption and video.representations:
             errs = []
             for tc in options.videoCorruption:
                 # each item is either a segment number or a time
